@@ -6,7 +6,7 @@ import ast
 from ..vals import fmt_obj, root_of
 from .common import CURVE_FIELDS, R, seg
 from .c04 import committed_deps, no_inplace_elem
-from .c05 import arg_flow, no_swallow, rule_n, tolerance_gate
+from .c05 import arg_flow, fit_flow, no_swallow, rule_n, tolerance_gate
 from .divisions import rule_d
 
 NEED = ("generic",)
@@ -28,6 +28,10 @@ def run(m, chk):
     arg_flow(r, chk, "ARG-FLOW", q, ".update", "tolerance", ["tolerance"])
     arg_flow(r, chk, "ARG-FLOW", q, ".update", "nodes", ["self.knotvector", "times"], what="with tolerance=None the values at the remaining knots must be kept")
     arg_flow(r, chk, "ARG-FLOW", q, ".update", "newknotvector", ["self.knotvector", "times"])
+    # with tolerance=None the interpolation nodes must arrive at the least-squares operator, on the polynomial and on the rational branch
+    arg_flow(r, chk, "ARG-FLOW", "curves.BaseCurve.update", ".fit_curve", "nodes", ["nodes"])
+    arg_flow(r, chk, "ARG-FLOW", "curves.BaseCurve.update", ".fit_curve", "other", ["self"])
+    fit_flow(r, chk)
     no_swallow(r, chk, [q, "curves.BaseCurve.degree.setter"])
     ctx = r.root(q)
     hits = [e for e in sorted(ctx.summary.effects, key=repr) if e[2] == "_KnotVector__internal" and root_of(e[1]) is not None]
